@@ -10,7 +10,7 @@ Node forms (plain dicts so that replay files are self-contained):
   {"k":"enum","name":N,"flag":bool,"base":T,"members":[[name,value],..],"src":[..member texts..]}
   {"k":"array","elem":node,"len":{"f":"fixed","n":N}|{"f":"expr","text":S}|{"f":"null"}|{"f":"eof"}}
   {"k":"ptr","to":node}
-  {"k":"struct","union":bool,"name":N|None,"decl":"inline"|"top"|"typedef"|"typedef2","fields":[field..]}
+  {"k":"struct","union":bool,"name":N|None,"decl":"inline"|"top"|"typedef"|"typedef2"|"typedef3"|"top2","fields":[field..]}
      field = {"name":N|None,"t":node,"bits":int|None[,"len_src":True]}
 """
 from __future__ import annotations
@@ -202,6 +202,10 @@ def render_struct_decl(node):
         return f"typedef {kw} {render_body(node)} {node['name']};"
     if d == "typedef2":
         return f"typedef {kw} _{node['name']} {render_body(node)} {node['name']}, {node['name']}_alt;"
+    if d == "typedef3":      # no tag, several names
+        return f"typedef {kw} {render_body(node)} {node['name']}, {node['name']}_alt, {node['name']}_alt2;"
+    if d == "top2":          # a tag and further names after the body
+        return f"{kw} {node['name']} {render_body(node)} {node['name']}_alt, {node['name']}_alt2;"
     raise ValueError(d)
 
 
@@ -559,7 +563,7 @@ class Gen:
                     inner = self.struct(depth + 1, union=is_union, allow_dyn=inner_dyn)
                     if o["named_structs"] and self.chance(0.25):
                         inner["name"] = self.nm("N")
-                        inner["decl"] = r.choice(["top", "typedef", "typedef2"])
+                        inner["decl"] = r.choice(["top", "typedef", "typedef2", "top", "typedef", "typedef2", "typedef3", "top2"])
                         inner["dynamic_"] = inner_dyn
                         self.decls.append({"d": "struct", "node": inner})
                         self.named.append(inner)
@@ -580,7 +584,10 @@ class Gen:
                     fields.append(F(fname, inner))
             elif x < 0.72 and o["ptrs"]:
                 tgt = r.random()
-                if tgt < 0.4:
+                if tgt < 0.06:
+                    to = {"k": "void"}
+                    self.feat("ptr:void")
+                elif tgt < 0.4:
                     to = self.int_node(list(PACKED_INTS))
                 elif tgt < 0.65:
                     to = N_char()
@@ -639,7 +646,8 @@ class Gen:
     def case(self, top_decl=None):
         r = self.r
         top = self.struct(0, top=True, name="T")
-        top["decl"] = top_decl or r.choice(["top", "top", "typedef", "typedef2"])
+        top["decl"] = top_decl or r.choice(["top", "top", "typedef", "typedef2", "top", "top", "typedef", "typedef2",
+                                            "typedef3", "top2"])
         self.decls.append({"d": "struct", "node": top})
         if self.prefix:
             self.feat("names:keyword-like-prefix")
